@@ -1,10 +1,123 @@
 (* C15 — YAML, Python and inherited definitions of a model are equivalent; equation edits change exactly the
-   whole-identifier occurrences.  Statements only; every proof is `exact <lemma>`. *)
+   whole-identifier occurrences.  Statements only; every proof is `exact <lemma of ReplaceProofs / YamlProofs>`. *)
 From Coq Require Import List Ascii String Bool Arith ZArith.
 From PV Require Import Replace ReplaceProofs Yaml YamlProofs.
 Import ListNotations.
 
+(* ===================== (a) equation edits ===================== *)
+
+(* For EVERY equation string, every delimiter predicate, every non-empty term free of delimiters (an identifier)
+   and every replacement: the find-driven loop of parser.replace (accumulator eq_new, the cut string, the
+   remembered previous character; as repaired by fix D11) terminates and returns the word-wise substitution:
+   the equation is split into delimiter characters and maximal delimiter-free runs (`words`), and exactly the
+   words that ARE the term are replaced.  A part of a longer identifier is never a word. *)
 Theorem C15_replace_full : forall isd term rep, term <> [] -> nodelim isd term = true ->
-  forall eq, replace isd term rep eq = Some (replace_words isd term rep eq).
+  forall eq, replace isd term rep eq = Some (List.concat (map (fun w => if str_eqb w term then rep else w) (words isd eq))).
 Proof. exact replace_full. Qed.
 Print Assumptions C15_replace_full.
+
+(* the intermediate refinement steps: accumulator form = suffix form = one left-to-right scan *)
+Theorem C15_loop_is_scan : forall isd term rep, term <> [] -> nodelim isd term = true ->
+  forall fuel prev s, List.length s < fuel -> loop isd term rep fuel prev s = Some (scan isd term rep (pd_of isd prev) 0 s).
+Proof. exact loop_is_scan. Qed.
+Print Assumptions C15_loop_is_scan.
+
+Theorem C15_accumulator_is_suffix : forall isd term rep, term <> [] -> nodelim isd term = true ->
+  forall fuel acc prev s, loopA isd term rep false false fuel acc prev s = option_map (app acc) (loop isd term rep fuel prev s).
+Proof. exact loopA_loop. Qed.
+Print Assumptions C15_accumulator_is_suffix.
+
+(* what `words` is: a partition of the string into single delimiters and non-empty delimiter-free runs *)
+Theorem C15_words_partition : forall isd s, List.concat (words isd s) = s /\ Forall (word_shape isd) (words isd s).
+Proof. intros isd s. split; [apply words_concat|apply words_shape]. Qed.
+Print Assumptions C15_words_partition.
+
+(* an equation in which the term is not a word is returned unchanged (rr, r_in, m_in2 are untouched by r / in) *)
+Theorem C15_other_identifiers_untouched : forall isd term rep s, ~ In term (words isd s) -> replace_words isd term rep s = s.
+Proof. exact replace_words_untouched. Qed.
+Print Assumptions C15_other_identifiers_untouched.
+
+(* rhs_only / lhs_only.  Both set = none set (theorem).  One set: the documented meaning ("only in the right-hand /
+   left-hand side of the equation") is NOT what the loop computes — full statement kept visible, refuted. *)
+Definition C15_flags_full_statement : Prop := forall rhs lhs eq,
+  replace_flags is_delim (L "r"%string) (L "X"%string) rhs lhs eq = Some (replace_words_sided is_delim (L "r"%string) (L "X"%string) rhs lhs eq).
+Theorem C15_flags_partial : forall isd term rep eq, replace_flags isd term rep true true eq = replace isd term rep eq.
+Proof. exact replace_both_flags. Qed.
+Print Assumptions C15_flags_partial.
+Theorem C15_flags_refuted_rhs : exists eq,
+  replace_flags is_delim (L "r"%string) (L "X"%string) true false eq <> Some (replace_words_sided is_delim (L "r"%string) (L "X"%string) true false eq).
+Proof. exact replace_rhs_flag_refuted. Qed.
+Print Assumptions C15_flags_refuted_rhs.
+Theorem C15_flags_refuted_lhs : exists eq,
+  replace_flags is_delim (L "r"%string) (L "X"%string) false true eq <> Some (replace_words_sided is_delim (L "r"%string) (L "X"%string) false true eq).
+Proof. exact replace_lhs_flag_refuted. Qed.
+Print Assumptions C15_flags_refuted_lhs.
+
+(* _update_equation(replace, remove, append, prepend): the sequential composition of word-wise substitutions *)
+Theorem C15_update_equation_full : forall isd e eq, edit_ok isd e = true ->
+  update_equation isd e eq = Some (update_equation_spec isd e eq).
+Proof. exact update_equation_full. Qed.
+Print Assumptions C15_update_equation_full.
+
+(* ===================== (c) inheritance: update_template of an operator ===================== *)
+
+(* a derived template equals its base except on the overridden keys (the last entry of a key wins), restricted to
+   the variables whose name occurs (as a substring — this is what the code tests) in some equation of the result *)
+Theorem C15_inheritance_variables : forall V isd beqs bvars u vupd eqs vars k,
+  update_op V isd beqs bvars u vupd = Some (eqs, vars) ->
+  lookup V k vars = if used eqs k then (match lookup V k (rev vupd) with Some v => Some v | None => lookup V k bvars end) else None.
+Proof. exact update_op_vars. Qed.
+Print Assumptions C15_inheritance_variables.
+
+Theorem C15_inheritance_equations : forall V isd beqs bvars e add vupd, edit_ok isd e = true ->
+  option_map fst (update_op V isd beqs bvars (EqEdit e add) vupd) = Some (map (update_equation_spec isd e) beqs ++ add).
+Proof. exact update_op_equations_edit. Qed.
+Print Assumptions C15_inheritance_equations.
+
+(* ===================== (b) to_yaml / from_yaml ===================== *)
+
+(* Full statement: for every circuit, dumping and loading again does not change the denotation. *)
+Definition C15_load_dump_full_statement : Prop := forall c, dicts_wf c = true -> load_dump_statement c.
+
+(* It holds for every circuit (any number of sub-circuits, nodes, operators, edges, edge templates; hierarchy
+   depth 0 and 1) inside the guard WFy = dictionaries have unique keys /\ all templates of one name are written
+   as one and the same dict (no_rename) /\ node-level overrides are on constants only (const_overrides). *)
+Theorem C15_load_dump_partial : forall c, WFy c = true -> option_map denote (roundtrip c) = Some (denote c).
+Proof. exact load_dump. Qed.
+Print Assumptions C15_load_dump_partial.
+
+(* the mechanism behind it: under no_rename the written store contains every template under its own name *)
+Theorem C15_dump_pure : forall c, no_rename c = true -> exists st, dump c = (c_name c, st) /\ holds st (circ_entries c).
+Proof. exact dump_pure. Qed.
+Print Assumptions C15_dump_pure.
+
+(* each guard is needed (computed witnesses; the same circuits fail on the real code, corpus/C15) *)
+Theorem C15_load_dump_refuted_rename : exists c, dicts_wf c = true /\ const_overrides c = true /\ variants_le2 c = true /\ ~ load_dump_statement c.
+Proof. exact load_dump_refuted_rename. Qed.
+Print Assumptions C15_load_dump_refuted_rename.
+Theorem C15_load_dump_refuted_three : exists c, dicts_wf c = true /\ const_overrides c = true /\ variants_le2 c = false /\ ~ load_dump_statement c.
+Proof. exact load_dump_refuted_three. Qed.
+Print Assumptions C15_load_dump_refuted_three.
+Theorem C15_load_dump_refuted_kind : exists c, dicts_wf c = true /\ no_rename c = true /\ const_overrides c = false /\ ~ load_dump_statement c.
+Proof. exact load_dump_refuted_kind. Qed.
+Print Assumptions C15_load_dump_refuted_kind.
+
+(* D33 as a theorem about add_to_dict: with one dict stored under `name`, two further different dicts of that name
+   both get the key <name>_num1 and the second overwrites the first *)
+Theorem C15_num1_handed_out_twice : forall name d1 d2 d3 st, assoc name st = Some d1 ->
+  entry_eqs d1 d2 || entry_eqb d1 d2 = false -> entry_eqs d1 d3 || entry_eqb d1 d3 = false ->
+  let (k2, st2) := add_to_dict name d2 st in
+  let (k3, st3) := add_to_dict name d3 st2 in
+  k2 = k3 /\ (str_eqb name (name ++ num1) = false -> assoc k2 st3 = Some d3).
+Proof. exact add_to_dict_num1_twice. Qed.
+Print Assumptions C15_num1_handed_out_twice.
+
+(* non-vacuity: a two-level circuit with a shared operator, the same override on every node, an edge template with
+   an override and a top-level edge satisfies WFy, round-trips, and has 4 nodes; the replace theorem's hypotheses
+   hold for the identifier r_in and the real delimiter set, on an equation containing r, rr, r_in and m_in2 *)
+Example C15_nonvacuous :
+  (WFy w_ok = true /\ roundtrip_ok w_ok = true /\ List.length (fst (denote w_ok)) = 4) /\
+  (L "r_in" <> [] /\ nodelim is_delim (L "r_in"%string) = true /\
+   replace is_delim (L "r"%string) (L "X"%string) (L "d/dt * r = rr*r_in + m_in2 - r"%string) = Some (L "d/dt * X = rr*r_in + m_in2 - X"%string)).
+Proof. split; [exact load_dump_nonvacuous|]. repeat split; try discriminate; vm_compute; reflexivity. Qed.
+Print Assumptions C15_nonvacuous.
